@@ -13,6 +13,7 @@ SUITES = {
     "n-codec": {"quick": 120, "thorough": 6000, "shards": 4},
     "n-replay": {"quick": 300, "thorough": 20000, "shards": 1},
     "n-world": {"quick": 160, "thorough": 6000, "shards": 8},
+    "t-udp": {"quick": 120, "thorough": 4000, "shards": 8},
 }
 
 R_ALL = ["r-pair", "r-hostile", "r-server"]
@@ -42,7 +43,7 @@ _ALL = {
     "C17": {"suites": ["n-codec", "n-world"], "assumptions": [NOFORGE, "distinct tokens carry distinct keys (random 256-bit values)", "one connection attempt per token"]},
     "C18": {"suites": ["n-world"], "assumptions": ["the network eventually delivers: stated as explicit good rounds"]},
     "C19": {"suites": ["n-world", "n-codec"], "assumptions": []},
-    "C20": {"suites": ["t-udp"], "assumptions": ["OS socket behaviour is observed, not proved"]},
+    "C20": {"suites": ["t-udp", "n-world", "r-server"], "assumptions": ["OS socket behaviour (kernel buffering, WouldBlock/ConnectionReset, ICMP, scheduling) is observed through real loopback sockets, not proved", "connections created with new_local_client are outside the transport (they break lock-step by construction)", NOFORGE]},
 }
 
 _coq = os.path.join(os.path.dirname(os.path.dirname(os.path.abspath(__file__))), "coq", "Props")
